@@ -1,4 +1,5 @@
 """C11 per-case checks: every function takes a json-able case and returns a list of (key, what) violations."""
+import functools
 import itertools
 import warnings
 
@@ -243,22 +244,36 @@ def check_pair(case):
     dense = (lambda H: D.mpo_window_dense(H, 0, n))
     # --- sum
     same_flag = bool(s1.get('plus_hc')) == bool(s2.get('plus_hc'))  # (documented requirement of the sum)
-    for name, ref in (('H1+H2', d1 + d2), ('H2+H1', d1 + d2), ('(H1+H2)+H1', 2 * d1 + d2)) if same_flag and not default else ():
+    sums = {}
+    for name, ref in (('H1+H2', d1 + d2), ('H2+H1', d1 + d2), ('(H1+H2)+H1', 2 * d1 + d2))[:2 if default else 3] if same_flag else ():
         S = rec.guard('add', {'H1+H2': lambda: H1 + H2, 'H2+H1': lambda: H2 + H1, '(H1+H2)+H1': lambda: (H1 + H2) + H1}[name])
         if S is None or not rec.ok('add:test_sanity', S.test_sanity):
             continue
         if not close(dense(S), ref):
             rec('add:dense:%s' % ('nested' if name.startswith('(') else 'all_id=%s+%s' % (s1.get('all_id', True), s2.get('all_id', True))),
                 '%s differs from the sum of the dense operators by %.3g' % (name, np.abs(dense(S) - ref).max()))
-        if S.max_range is None or S.max_range < max(U.spec_range(s1), U.spec_range(s2)):
-            rec('add:max_range', 'max_range of the sum is %r' % S.max_range)
+        known = 'max_range' not in s1 and 'max_range' not in s2
+        if (S.max_range is None and known) or (S.max_range is not None and S.max_range < max(U.spec_range(s1), U.spec_range(s2))):
+            rec('add:max_range', 'max_range of %s is %r (operands: %r, %r), a term has range %d' % (name, S.max_range, H1.max_range, H2.max_range, max(U.spec_range(s1), U.spec_range(s2))))
+        elif name != '(H1+H2)+H1':
+            sums[name] = S
         if name == 'H1+H2':  # the sum (with IdR = -1) as input of further operations
-            Sd = rec.guard('add:dagger', S.dagger)
+            Sd = None if default else rec.guard('add:dagger', S.dagger)
             if Sd is not None and not close(dense(Sd), ref.conj().T):
                 rec('add:dagger', 'dagger() of H1+H2 is not the conjugate transpose')
-            if rec.ok('add:sort_legcharges', S.sort_legcharges) and not close(dense(S), ref):
+            # the term list of the sum (a derived MPO: IdR = -1) is the sum of the operators
+            basis = U.CHAINS[s1['chain']][2]
+            if basis is not None and not s1.get('plus_hc'):
+                tkw = dict(ignore=[]) if s1['chain'] == 'F:N' else {}
+                tl = rec.guard('add:to_TermList', S.to_TermList, basis, **tkw)
+                sites_ = [U.site_of(s1['chain'])] * s1['L']
+                if tl is not None:
+                    got = termlist_dense(sites_, tl) if fin else D.window_terms_dense(sites_, s1['L'], n, tl.terms, tl.strength, jw=False)
+                    if got.shape != ref.shape or not close(got, ref):
+                        rec('add:to_TermList:%s' % ('finite' if fin else 'infinite'), 'to_TermList of H1+H2 (%d terms) is not the sum of the operators' % len(tl.terms))
+            if not default and rec.ok('add:sort_legcharges', S.sort_legcharges) and not close(dense(S), ref):
                 rec('add:sort_legcharges', 'H1+H2 changed by sort_legcharges')
-        if name == 'H1+H2' and not fin:  # energy density of the (sorted) sum in an infinite state
+        if name == 'H1+H2' and not fin and not default:  # energy density of the (sorted) sum in an infinite state
             Lc = max(s1['L'], 2)
             psi = U.infinite_state(s1['chain'], Lc, np.random.default_rng(case['seed']))
             m = Lc + max(U.spec_range(s1), U.spec_range(s2), 1)
@@ -274,28 +289,32 @@ def check_pair(case):
                 rec('add:expectation_value', 'expectation value of H1+H2: %r, dense %r' % (e, np.vdot(v, ref @ v)))
             if s1.get('all_id', True) and s2.get('all_id', True) and case.get('propagators'):
                 second_order(rec, 'add:make_U_%s', S, ref, 0.04j)
-    # --- overlap, distance, equality
+    # --- overlap, distance, equality (with the default window also of the sums against their first operand)
     kw = {} if fin else dict(understood_infinite=True) if default else dict(understood_infinite=True, num_sites=n)
     tag = ':default-num_sites' if default else ''
-    for name, (A, B), (a, b) in (('H1,H2', (H1, H2), (d1, d2)), ('H2,H1', (H2, H1), (d2, d1)), ('H1,H1', (H1, H1), (d1, d1))):
-        if default and name == 'H1,H1':
-            a = b = U.spec_dense(s1, _window(s1, H1))
+    ops = {'H1': (H1, [s1]), 'H2': (H2, [s2])}
+    ops.update({k: (S, [s1, s2]) for k, S in sums.items() if default})
+    ref_dense = functools.lru_cache(maxsize=None)(lambda name, m: sum(U.spec_dense(sp, m) for sp in ops[name][1]))
+    window = (lambda *names: n if fin or not default else max(_window(s1, ops[k][0]) for k in names))
+    pairs = [('H1', 'H2'), ('H2', 'H1'), ('H1', 'H1')] + [p for k in ops if '+' in k for p in ((k, 'H1'), ('H1', k))]
+    for na, nb in pairs:
+        (A, _), (B, _), m = ops[na], ops[nb], window(na, nb)
+        a, b = ref_dense(na, m), ref_dense(nb, m)
         ov = rec.guard('overlap' + tag, A.overlap, B, **kw)
         if ov is not None and not close(ov, np.vdot(a, b), 1e-9):
-            rec('overlap%s:value' % tag, 'overlap(%s)=%r, dense tr(A^+ B)=%r on %d sites' % (name, ov, np.vdot(a, b), n))
-        dist = rec.guard('distance' + tag, A.distance, B, **kw) if ov is not None and name != 'H2,H1' else None
+            rec('overlap%s:value' % tag, 'overlap(%s, %s)=%r, dense tr(A^+ B)=%r on %d sites' % (na, nb, ov, np.vdot(a, b), m))
+        dist = rec.guard('distance' + tag, A.distance, B, **kw) if ov is not None and (na, nb) != ('H2', 'H1') else None
         if dist is not None and not (close(dist, fro2(a - b), 1e-9) or close(dist, np.sqrt(fro2(a - b)), 1e-9)):
-            rec('distance%s:value' % tag, 'distance(%s)=%r, dense |A-B|_F^2=%r' % (name, dist, fro2(a - b)))
-    for (A, sa, B, sb) in ((H1, s1, H2, s2), (H2, s2, H1, s1)):
-        m = _window(sa, A)
-        a, b = (d1, d2) if A is H1 else (d2, d1)
-        if m != n:
-            a, b = U.spec_dense(sa, m), U.spec_dense(sb, m)
-        for eps in (1e-10, 1e-3) if A is H1 else (1e-10,):
+            rec('distance%s:value' % tag, 'distance(%s, %s)=%r, dense |A-B|_F^2=%r on %d sites' % (na, nb, dist, fro2(a - b), m))
+    for na, nb in [p for p in pairs if p[0] != p[1]]:
+        (A, _), (B, _) = ops[na], ops[nb]
+        m = n if fin else _window(s1, A)  # (is_equal always takes the default window of self)
+        a, b = ref_dense(na, m), ref_dense(nb, m)
+        for eps in (1e-10, 1e-3) if na == 'H1' else (1e-10,):
             truth = decided(fro2(a - b), fro2(a) + fro2(b), eps)
             got = rec.guard('is_equal', A.is_equal, B, eps)
             if got is not None and truth is not None and bool(got) != truth:
-                rec('is_equal:false-%s' % ('negative' if truth else 'positive'), 'is_equal(eps=%g)=%s but dense |A-B|^2/(|A|^2+|B|^2)=%.3g on %d sites' % (eps, got, fro2(a - b) / (fro2(a) + fro2(b)), m))
+                rec('is_equal:false-%s' % ('negative' if truth else 'positive'), 'is_equal(%s, %s, eps=%g)=%s but dense |A-B|^2/(|A|^2+|B|^2)=%.3g on %d sites' % (na, nb, eps, got, fro2(a - b) / (fro2(a) + fro2(b)), m))
     return rec
 
 
